@@ -60,6 +60,9 @@ def rot_contract(I, fv, args, kwargs):
     st = I.st
     v1 = NP.asarray(I, args[0]).data
     v2 = NP.asarray(I, args[1]).data
+    if any(NP.is_nan(x) for x in list(v1) + list(v2)):
+        st.event("np-division-by-zero", "undefined direction passed to rotation_matrix_from_vectors")
+        return NP.mk([[NP.NAN] * 3 for _ in range(3)])
     n_ = st.ghost["rot_contract_uses"] = st.ghost.get("rot_contract_uses", 0) + 1
     R = [[st.fresh_sv(f"R{n_}_{i}{j}", "real") for j in range(3)] for i in range(3)]
     mm = matT_mul(R)
